@@ -33,3 +33,150 @@ Theorem C08_sample_both_orders :
   roundtrip_colours [alias_part 1; legacy_part 2] [1; 2]
     = [(bstr "A", Some (VColor3uint8 1 2 3)); (bstr "L", Some (VColor3uint8 163 162 165))].
 Proof. exact c08_sample_both_orders. Qed.
+
+(* ==== totality and order independence of the column planning (Proofs/BinTypeInfoFacts.v), for every database: the unwrap in
+   collect_type_info is unreachable; planning a property list succeeds iff every visited pair is plannable, so (under the
+   type-consistency hypothesis: all spellings of one logical property agree on the serialized type; for names unknown to the
+   database: one value type per name) success is invariant under permutation of siblings and of each instance's property list,
+   and holds for the set as soon as it holds for each instance alone (this half needs no hypothesis).  The hypothesis is
+   necessary: C08_sibling_order_dependence_* (recorded finding mixed-types-order-dependent). *)
+From Coq Require Import Permutation.
+From RbxVerif Require Import DbCheck Database BinTypeInfoFacts.
+Open Scope N_scope.
+
+Theorem C08_cti_prop_unwrap_unreachable :
+  forall (d : db) (class : bytes) (acc : list bytes * type_info) (pv : bytes * value),
+       cti_prop d class acc pv = Panic ->
+       resolve_prop d class (fst pv) (snd pv) = Panic \/
+       (exists (c s : bytes) (ty : N) (m : option migop),
+          resolve_prop d class (fst pv) (snd pv) = Ok (RProp c s ty m) /\
+          col_plan d (ti_class (snd acc)) c ty = Panic).
+Proof. exact cti_prop_unwrap_unreachable. Qed.
+
+Theorem C08_cti_prop_ok_or_unsupported :
+  forall (d : db) (class : bytes) (acc : list bytes * type_info) (pv : bytes * value),
+       db_lookup_safe d = true ->
+       (forall k : cdesc, ti_class (snd acc) = Some k -> In k (db_classes d)) ->
+       (exists acc' : list bytes * type_info, cti_prop d class acc pv = Ok acc') \/
+       cti_prop d class acc pv = Err EE_UNSUPPORTED.
+Proof. exact cti_prop_ok_or_unsupported. Qed.
+
+Theorem C08_fold_cti_ok_iff :
+  forall (d : db) (class : bytes) (l : list (bytes * value)) (ss : list bytes) (ti : type_info),
+       types_agree d class l ->
+       (exists acc' : list bytes * type_info, fold_res (cti_prop d class) (ss, ti) l = Ok acc') <->
+       Forall
+         (fun pv : bytes * value =>
+          bmem (fst pv) (ti_visited ti) = true \/ pair_plannable d class (ti_class ti) (ti_props ti) pv) l.
+Proof. exact fold_cti_ok_iff. Qed.
+
+Theorem C08_collect_types_perm_success :
+  forall (d : db) (class : bytes) (st : ser_state) (insts insts' : list inst),
+       Forall (fun j : inst => i_class j = class) insts ->
+       insts_perm insts insts' ->
+       types_agree d class (flat_map i_props insts) ->
+       (exists st' : ser_state, fold_res (collect_type_info d) st insts = Ok st') ->
+       exists st' : ser_state, fold_res (collect_type_info d) st insts' = Ok st'.
+Proof. exact collect_types_perm_success. Qed.
+
+Theorem C08_collect_types_each_alone :
+  forall (d : db) (class : bytes) (insts : list inst),
+       Forall (fun j : inst => i_class j = class) insts ->
+       types_agree d class (flat_map i_props insts) ->
+       (forall i : inst, In i insts -> exists st' : ser_state, collect_type_info d ser_state0 i = Ok st') ->
+       exists st' : ser_state, fold_res (collect_type_info d) ser_state0 insts = Ok st'.
+Proof. exact collect_types_each_alone. Qed.
+
+Theorem C08_collect_types_each_alone_noH :
+  forall (d : db) (class : bytes) (insts : list inst),
+       Forall (fun j : inst => i_class j = class) insts ->
+       (forall i : inst, In i insts -> exists st' : ser_state, collect_type_info d ser_state0 i = Ok st') ->
+       exists st' : ser_state, fold_res (collect_type_info d) ser_state0 insts = Ok st'.
+Proof. exact collect_types_each_alone_noH. Qed.
+
+Theorem C08_collect_types_perm_plan_spelled :
+  forall (d : db) (class : bytes) (st : ser_state) (insts insts' : list inst) (st1 st2 : ser_state),
+       insts <> [] ->
+       Forall (fun j : inst => i_class j = class) insts ->
+       insts_perm insts insts' ->
+       spellings_agree d class (flat_map i_props insts) ->
+       migrations_agree d class (flat_map i_props insts) ->
+       st_nodup (class_state d class st) ->
+       fold_res (collect_type_info d) st insts = Ok st1 ->
+       fold_res (collect_type_info d) st insts' = Ok st2 ->
+       exists ti1 ti2 : type_info,
+         bfind class (ss_types st1) = Some ti1 /\
+         bfind class (ss_types st2) = Some ti2 /\
+         ti_id ti1 = ti_id ti2 /\
+         ti_service ti1 = ti_service ti2 /\
+         ti_class ti1 = ti_class ti2 /\
+         ti_instances ti1 = ti_instances (class_ti d class st) ++ List.map i_ref insts /\
+         ti_instances ti2 = ti_instances (class_ti d class st) ++ List.map i_ref insts' /\
+         List.map fst (ti_props ti1) = List.map fst (ti_props ti2) /\
+         Forall2 (fun x y : bytes * prop_info => fst x = fst y /\ pi_equiv_perm (snd x) (snd y))
+           (ti_props ti1) (ti_props ti2) /\
+         Permutation.Permutation (ss_sstr st1) (ss_sstr st2) /\
+         (forall k : bytes, k <> class -> bfind k (ss_types st1) = bfind k (ss_types st2)) /\
+         List.map fst (ss_types st1) = List.map fst (ss_types st2) /\
+         ss_next_id st1 = ss_next_id st2 /\ ss_relevant st1 = ss_relevant st2.
+Proof. exact collect_types_perm_plan_spelled. Qed.
+
+Theorem C08_column_values_perm :
+  forall (p : enc_params) (canon : bytes) (pi pi' : prop_info) (ord ord' : list bytes)
+         (insts insts' : list inst),
+       Forall2 inst_perm insts insts' ->
+       Forall (fun i : inst => NoDup (List.map fst (i_props i))) insts ->
+       pi_equiv_perm pi pi' ->
+       Permutation.Permutation ord (pi_aliases pi) ->
+       Permutation.Permutation ord' (pi_aliases pi') ->
+       Forall (one_spelling canon (pi_aliases pi)) insts ->
+       List.map (prop_value p canon pi ord) insts = List.map (prop_value p canon pi' ord') insts'.
+Proof. exact column_values_perm. Qed.
+
+Theorem C08_agree_from_db :
+  forall (d : db) (class : bytes) (l : list (bytes * value)),
+       class_spellings_ok d (string_of_bytes class) = true ->
+       (forall (n : bytes) (v1 v2 : value),
+        In (n, v1) l ->
+        In (n, v2) l ->
+        known_resolve d (string_of_bytes class) (string_of_bytes n) = Ok None -> vtype v1 = vtype v2) ->
+       spellings_agree d class l /\ migrations_agree d class l.
+Proof. exact agree_from_db. Qed.
+
+Theorem C08_bundled_spellings_ok :
+  forallb (fun c : cdesc => class_spellings_ok database (cd_name c)) (db_classes database) = true.
+Proof. exact bundled_spellings_ok. Qed.
+
+Theorem C08_bundled_agree :
+  forall (class : bytes) (l : list (bytes * value)),
+       (forall (n : bytes) (v1 v2 : value),
+        In (n, v1) l ->
+        In (n, v2) l ->
+        known_resolve database (string_of_bytes class) (string_of_bytes n) = Ok None -> vtype v1 = vtype v2) ->
+       spellings_agree database class l /\ migrations_agree database class l.
+Proof. exact bundled_agree. Qed.
+
+Theorem C08_perm_success_needs_H :
+  is_ok (fold_res (collect_type_info db0) ser_state0 [foo_string 1; foo_attrs 2]) = true /\
+       is_ok (fold_res (collect_type_info db0) ser_state0 [foo_attrs 2; foo_string 1]) = false /\
+       insts_perm [foo_string 1; foo_attrs 2] [foo_attrs 2; foo_string 1] /\
+       ~ types_agree db0 (bstr "Folder") (flat_map i_props [foo_string 1; foo_attrs 2]).
+Proof. exact perm_success_needs_H. Qed.
+
+Theorem C08_sibling_order_dependence_mixed_types :
+  is_ok (fold_res (collect_type_info db0) ser_state0 [foo_string 1; foo_attrs 2]) = true /\
+       is_ok (fold_res (collect_type_info db0) ser_state0 [foo_attrs 2; foo_string 1]) = false /\
+       is_ok (encode_file db0 ep0 None [foo_string 1; foo_attrs 2] [1; 2]) = true /\
+       encode_file db0 ep0 None [foo_attrs 2; foo_string 1] [2; 1] = Err EE_UNSUPPORTED /\
+       encode_file db0 ep0 None [foo_attrs 2] [2] = Err EE_UNSUPPORTED.
+Proof. exact sibling_order_dependence_mixed_types. Qed.
+
+Theorem C08_sibling_order_dependence_bundled :
+  is_ok (encode_file database ep0 None [foo_string 1; foo_attrs 2] [1; 2]) = true /\
+       encode_file database ep0 None [foo_attrs 2; foo_string 1] [2; 1] = Err EE_UNSUPPORTED.
+Proof. exact sibling_order_dependence_bundled. Qed.
+
+Theorem C08_three_parts_together :
+  exists st' : ser_state, fold_res (collect_type_info db_part) ser_state0 three_parts' = Ok st'.
+Proof. exact three_parts_together. Qed.
+
